@@ -587,7 +587,7 @@ func (r *c16Run) quiescent() bool {
 }
 
 func (r *c16Run) sync() bool {
-	deadline := time.Now().Add(4 * time.Second)
+	deadline := newBusyDL(4 * time.Second)
 	for i := 0; ; i++ {
 		if r.quiescent() {
 			return true
@@ -597,7 +597,7 @@ func (r *c16Run) sync() bool {
 		} else {
 			time.Sleep(50 * time.Microsecond)
 		}
-		if i%64 == 63 && time.Now().After(deadline) {
+		if i%64 == 63 && deadline.expired() {
 			r.stuck = true
 			return false
 		}
@@ -752,7 +752,7 @@ func (r *c16Run) drain(max int) bool {
 			}
 			continue
 		}
-		if time.Since(last) > 4*time.Second {
+		if time.Since(last) > 4*time.Second && time.Since(last) > busyScale(4*time.Second) {
 			r.stuck = true
 			return false
 		}
@@ -762,8 +762,8 @@ func (r *c16Run) drain(max int) bool {
 }
 
 func (r *c16Run) settle() int {
-	deadline := time.Now().Add(2 * time.Second)
-	for r.gor() > 0 && time.Now().Before(deadline) {
+	deadline := newBusyDL(2 * time.Second)
+	for r.gor() > 0 && !deadline.expired() {
 		time.Sleep(100 * time.Microsecond)
 	}
 	g := r.gor()
@@ -1091,8 +1091,8 @@ func (c16) Run(c Case) Result {
 		r.gate.open = true
 		r.gate.cond.Broadcast()
 		r.gate.mu.Unlock()
-		deadline := time.Now().Add(2 * time.Second)
-		for r.gor() > 0 && time.Now().Before(deadline) {
+		deadline := newBusyDL(2 * time.Second)
+		for r.gor() > 0 && !deadline.expired() {
 			select {
 			case <-r.ch:
 			default:
